@@ -481,7 +481,12 @@ where
             Ok(out) => out,
             Err(_) => {
                 let mut out = CaseOut::new();
-                out.inconclusive = Some(format!("harness thread for case {} panicked", i));
+                let at = crate::exec::LAST_PANIC_ANY_THREAD.lock().ok().and_then(|g| g.clone());
+                let _ = i;
+                out.inconclusive = Some(match at {
+                    Some((loc, msg)) => format!("harness thread panicked at {}: {}", loc, msg.chars().take(120).collect::<String>()),
+                    None => "harness thread panicked".to_string(),
+                });
                 out
             }
         }
